@@ -78,6 +78,31 @@ def cases(tier):
             for f in FOCALS:
                 yield Case("lens:%s:f=%g:ztype=%s" % (base, f, zt),
                            {"prop": "lens", "N": N, "wvl": wvl, "d1": d1, "z": f, "zt": zt})
+    # corners of the parameter space far from the adaptive-optics lattice above ("all wavelengths, samplings and
+    # distances"): sampling finer than the wavelength, very long and very short distances, millimetre waves with a
+    # long focal length (a physically large focal plane)
+    for N in NS(tier)[1:3]:
+        for wvl, d1, zs, fs in EXTREME:
+            base = "N=%d:lam=%g:d1=%g" % (N, wvl, d1)
+            for z in zs:
+                for m in (1.0, 2.0, 0.5):
+                    for prop in ("angular_spectrum", "two_step"):
+                        yield Case("%s:%s:m=%g:z=%g:ztype=float" % (prop, base, m, z),
+                                   {"prop": prop, "N": N, "wvl": wvl, "d1": d1, "m": m, "z": z, "zt": "float"})
+                yield Case("one_step:%s:z=%g:ztype=float" % (base, z),
+                           {"prop": "one_step", "N": N, "wvl": wvl, "d1": d1, "z": z, "zt": "float"})
+            for f in fs:
+                yield Case("lens:%s:f=%g:ztype=float" % (base, f),
+                           {"prop": "lens", "N": N, "wvl": wvl, "d1": d1, "z": f, "zt": "float"})
+
+
+# (wavelength, input spacing, distances, focal lengths)
+EXTREME = [
+    (1.0e-6, 0.4e-6, [3.0e-6, -3.0e-6, 5.0e-5], [1.0e-4]),          # sub-wavelength sampling
+    (0.5e-6, 0.01, [1.0e6, -1.0e6, 1.0e-3], [1.0e3, -1.0e3]),       # very long / very short distance
+    (3.0e-3, 0.005, [10.0, -10.0], [2.0, 50.0]),                    # mm waves: focal plane of order a metre
+    (10.0e-6, 1.0e-5, [1.0, -0.2], [0.3]),                          # thermal IR, micron sampling
+]
 
 
 def _maxabs(a):
